@@ -265,5 +265,5 @@ func checkValidatorResultsUsed(c *core.Ctx, rule string, cone []*ssa.Function) {
 
 var discardAllowed = map[string]string{
 	"removeLeavingNodesNotExistingInEligibleOrWaiting#1": "the second result lists leaving keys unknown to both maps; they are intentionally ignored",
-	"removeValidatorsFromList#1":                          "the second result is the list of removed entries, informational",
+	"removeValidatorsFromList#1":                         "the second result is the list of removed entries, informational",
 }
